@@ -82,7 +82,7 @@ EDGELIKE = ["edge.1", "b", "c", "d"]
 def initial_model(shape, scheme):
     """model tree for an unlabeled shape under a naming / length scheme"""
     n_edges = sum(1 for _ in _walk_shape(shape)) - 1
-    if scheme in ("pow2-named", "nasty-named", "quotes-named", "edgelike-mixed", "blankends-named", "dquotes-named"):
+    if scheme in ("pow2-named", "nasty-named", "quotes-named", "edgelike-mixed", "nodelike-mixed", "blankends-named", "dquotes-named"):
         lens = [2.0 ** (k - 2) for k in range(n_edges)]
     elif scheme == "pow2rev-unnamed":
         lens = [2.0 ** (k - 2) for k in range(n_edges)][::-1]
@@ -93,6 +93,7 @@ def initial_model(shape, scheme):
     tip_i = itertools.count()
     int_i = itertools.count(1)
     len_i = iter(lens)
+    n_internal = sum(1 for x in _walk_shape(shape) if x) - 1
 
     def build(s, root):
         length = None if root else next(len_i)
@@ -102,6 +103,9 @@ def initial_model(shape, scheme):
             name = None
         elif scheme == "edgelike-mixed":
             name = "edge.0" if next(int_i) == 1 else None  # one internal node carries a generated-looking name, the rest none
+        elif scheme == "nodelike-mixed":
+            # the last internal node in preorder carries the kind of name the serialiser hands out to unnamed nodes
+            name = "node1" if next(int_i) == n_internal else None
         elif named:
             k = next(int_i)
             name = f"X{k}" if scheme == "pow2-named" else f"n_{k} x"
